@@ -54,3 +54,20 @@ Theorem C04_release_change_safe :
     snd (cs_next sha sigok c d') = None /\ snd (next_launch sha sigok c d') = None.
 Proof. exact release_change_safe. Qed.
 Print Assumptions C04_release_change_safe.
+
+(* The fault-monad model run without faults IS the pure model of the lifecycle theorems (and of the
+   correspondence runs): every call, and the first call of a process, leave exactly the pure disk *)
+From UV Require Import FaultRefine.
+Theorem C04_nofault_is_pure_model :
+  forall sha sigok zdec base (c : cfg) (o : op) (d : disk),
+    (forall r y p, o <> OInit r y p) -> o <> OKill -> (forall g, o <> ODamage g) ->
+    NFd (callM sha sigok zdec base c o) d
+        (w_disk (fst (fst (step sha sigok zdec base {| w_disk := d; w_cfg := Some c |} o)))).
+Proof. exact call_refines. Qed.
+Print Assumptions C04_nofault_is_pure_model.
+
+Theorem C04_nofault_init_is_pure_model :
+  forall sha sigok (c : cfg) (d : disk),
+    NFd (initM sha sigok c) d (cs_init_recover sha sigok c d).
+Proof. exact init_refines. Qed.
+Print Assumptions C04_nofault_init_is_pure_model.
